@@ -28,6 +28,14 @@ iso      instance isolation: three judged instances (default constructor + regis
          built-in filter names and the judged instance's template names. Templates mention every sibling-only name in
          every role it could be confused with (default word, include target -> unknown-include marker, plain/optional
          variable) and are rendered right after siblings rendered them; reference = the judged instance's OWN tables.
+adj      adjacency: every documented construct string is split into 2 and 3 non-empty FRAGMENTS (every split) and the
+         fragments are placed, in order, into ADJACENT emission sites of every kind (plain / optional / defaulted /
+         filtered / custom-filtered variable, loop item / dot / dict field, consecutive loop items with no separator,
+         include output, default literal, literal template text), at top level, inside an included child, inside if /
+         else / loop bodies. Each fragment alone is harmless; only their concatenation spells the construct. Oracle:
+         the reference expansion (fragments verbatim); for templates whose text carries no fragment also a
+         differential one: warnings and the strict-mode outcome must equal those of the same template rendered with
+         inert fragments (a spurious "Unbound variable" warning is a re-interpretation too).
 The instances under test are built with custom filters passed to the constructor.
 """
 from __future__ import annotations
@@ -80,6 +88,8 @@ def parse(s, custom=True):
     custom: whether the instance was given the harness's custom filters (a|name is a filter only if registered)."""
     got = _PARSED.get((s, custom))
     if got is None:
+        if len(_PARSED) > 100000:
+            _PARSED.clear()
         nodes, pos, stop = _parse_seq(s, 0, (), FILTER_SETS[custom])
         assert stop is None and pos == len(s)
         got = _PARSED[(s, custom)] = nodes
@@ -420,6 +430,7 @@ CUSTOM_FILTERS = {}
 for _i, (_c, _p) in enumerate(FILTER_PAYLOADS):
     CUSTOM_FILTERS["cf%d" % _i] = (lambda x, _p=_p: "%s<%s>" % (_p, x)) if _p else (lambda x: "")
 CUSTOM_FILTERS["cf_neutral"] = lambda x: "%s<%s>" % (NEUTRAL, x)
+CUSTOM_FILTERS["cf_id"] = lambda x: str(x)  # adjacency family: a custom filter whose result is the value itself
 FILTER_SETS = {False: REF_FILTERS, True: dict(REF_FILTERS, **CUSTOM_FILTERS)}
 SHADOW_V = (["a", "b"], [{"k": "x"}], [{"k": "x", "w": "Wd"}],
             [{"item": "It", "index": "Ix", "first": "", "last": "La"}], ["a", {"index": "Ix", "w": "Wd"}, "c"])
@@ -525,7 +536,7 @@ def build(env, strict):
         with contextlib.redirect_stdout(io.StringIO()):
             return Ribosome(templates={n: mRNA(sequence=q, name=n) for n, q in ALT_REGISTRY.items()}, strict=strict)
     r = Ribosome(filters=dict(CUSTOM_FILTERS), strict=strict, silent=True)
-    for name, seq in REGISTRY.items():
+    for name, seq in (REGISTRY if env == "rereg" else ENVS[env]["registry"]).items():
         r.register_template(mRNA(sequence=seq, name=name))
     if env == "rereg":
         r.create_template(ALT_REGISTRY["leaf"], "leaf")
@@ -573,6 +584,9 @@ def observe(tstr, ctx, strict=False, env="main", how="synthesize", count=False):
         elif how == "create":
             rib.create_template(tstr, ENTRY_NAME)
             p = rib.translate(ENTRY_NAME, **ctx)
+        elif how == "included":  # the template is registered as a child and rendered through a parent's include
+            rib.create_template(tstr, ADJ_CHILD)
+            p = rib.synthesize(ADJ_PARENT, **ctx)
         elif how == "register-as":
             rib.register_template(mRNA(sequence=tstr, name="not_this_name"), name=ENTRY_NAME + "_2")
             p = rib.translate(ENTRY_NAME + "_2", **ctx)
@@ -593,14 +607,15 @@ def _shadows_special(ctx):
                for x in ctx.values())
 
 
-def ref_alts(tstr, ctx, env="main"):
+def ref_alts(tstr, ctx, env="main", extra=None):
     """-> (Ref, accepted outputs), or None when the documentation leaves the case unspecified.
     A dict item with a key named item/index/first/last: 'its keys are merged into the loop context' and '{{index}} is
     the position' are both documented; either reading is accepted (consistently within one render)."""
     e = ENVS[env]
+    registry = dict(e["registry"], **extra) if extra else e["registry"]  # extra: templates registered for this case
     refs = []
     for dict_wins in ((True, False) if _shadows_special(ctx) else (True,)):
-        r = Ref(e["registry"], ctx, e["custom"], dict_wins)
+        r = Ref(registry, ctx, e["custom"], dict_wins)
         try:
             r.render(parse(tstr, e["custom"]), ctx, "top")
         except Unspecified:
@@ -758,6 +773,8 @@ def judge(case):
         return judge_api(case)
     if case["phase"] == "iso":
         return judge_iso(case)
+    if case["phase"] == "adj":
+        return judge_adj(case)
     tpl, ctx = case["tpl"], case["ctx"]
     tstr = emit(tpl)
     ra = ref_alts(tstr, ctx)
@@ -886,6 +903,254 @@ def judge_api(case, paths=API_PATHS, tag="", family="api"):
     return "ok", viol, (family, strict, tuple(oc))
 
 
+
+# ----------------------------------------------------------------------------------------------
+# adjacency family: fragments of a construct in ADJACENT emission sites
+# ----------------------------------------------------------------------------------------------
+# Every fragment is harmless alone (an opening delimiter, half a name, `|trim}}`, `/each}}`, one brace...); only the
+# concatenation of what adjacent sites emit spells a construct. One left-to-right expansion emits them verbatim.
+ADJ_CONSTRUCTS = tuple((c, p) for c, p in PAYLOADS if c in (
+    "simple-variable", "optional-variable", "filtered-variable", "defaulted-variable", "include", "if-block",
+    "each-block", "loop-dot", "loop-index"))
+ADJ_CHILD = "adj_whole"
+ADJ_PARENT = "<{{>%s}}>" % ADJ_CHILD
+# emission sites. value sites: the fragment is DATA (bound value / loop item / dict field / value rendered by an
+# included child); literal sites: the fragment is written in the template (default literal, literal text)
+ADJ_LOOP_KINDS = ("loop-item", "loop-dot", "dict-field")  # may also emit several consecutive fragments (no separator)
+ADJ_VALUE_KINDS = ("simple", "optional", "defaulted", "filtered", "custom-filter-output", "include-output") + ADJ_LOOP_KINDS
+ADJ_LITERAL_KINDS = ("default-literal", "template-text")
+ADJ_KINDS = ADJ_VALUE_KINDS + ADJ_LITERAL_KINDS
+# one kind per rendering stage a value can be emitted by (loops, includes, filtered, defaulted, optional, plain)
+ADJ_STAGE_KINDS = ("loop-item", "include-output", "filtered", "defaulted", "optional", "simple")
+ADJ_CORE_KINDS = ("loop-item", "filtered", "simple")
+# inside a block body the grammar allows text and plain variables only; in a loop body also the loop's own names
+ADJ_IF_KINDS = ("simple", "template-text")
+ADJ_BODY_KINDS = ("simple", "template-text", "body-item", "body-dot", "body-field-k", "body-field-j")
+ADJ_WRAPPERS = ("top", "included", "if-body", "else-body", "loop-body")
+ADJ_FLAGS = {"t": 1, "f": 0}
+ENVS["adj"] = dict(registry=dict(REGISTRY, **{"fi%d" % i: "{{p%d}}" % i for i in range(3)}), custom=True)
+_ADJ_PIECE = {"simple": "{{p%d}}", "optional": "{{?p%d}}", "defaulted": "{{p%d|dflt}}", "filtered": "{{p%d|trim}}",
+              "custom-filter-output": "{{p%d|cf_id}}", "include-output": "{{>fi%d}}",
+              "loop-item": "{{#each l%d}}{{item}}{{/each}}", "loop-dot": "{{#each l%d}}{{.}}{{/each}}",
+              "dict-field": "{{#each l%d}}{{k}}{{/each}}"}
+_ADJ_BODY_PIECE = {"body-item": "{{item}}", "body-dot": "{{.}}", "body-field-k": "{{k}}", "body-field-j": "{{j}}"}
+
+
+def splits(s, n):
+    """Every way to cut s into n non-empty consecutive fragments."""
+    for cuts in itertools.combinations(range(1, len(s)), n - 1):
+        b = (0,) + cuts + (len(s),)
+        yield tuple(s[b[i] : b[i + 1]] for i in range(n))
+
+
+def _body_ok(kinds):
+    """One loop item feeds the whole body: it is either the fragment itself (one {{item}} / {{.}}) or a dict of
+    fragments ({{k}}, {{j}}, each once)."""
+    own = [k for k in kinds if k in _ADJ_BODY_PIECE]
+    fields = [k for k in own if k.startswith("body-field")]
+    if len(fields) != len(set(fields)):
+        return False
+    return len(own) == len(fields) or len(own) == 1
+
+
+def adj_placements(n, level):
+    """-> [(wrapper, ((site kind, number of consecutive fragments it emits), ...))] for n fragments."""
+    thorough = level == "thorough"
+    out = []
+    singles = lambda kinds, m: [tuple((k, 1) for k in ks) for ks in itertools.product(kinds, repeat=m)]  # noqa: E731
+    for wrapper in ("top", "included"):
+        if n == 2:
+            pl = singles(ADJ_KINDS, 2) + [((lk, 2),) for lk in ADJ_LOOP_KINDS]
+        else:
+            pl = [((lk, 3),) for lk in ADJ_LOOP_KINDS]
+            if wrapper == "top" or thorough:
+                pl += singles(ADJ_KINDS if thorough and wrapper == "top" else ADJ_STAGE_KINDS if thorough else ADJ_CORE_KINDS, 3)
+                for lk in ADJ_LOOP_KINDS:
+                    for k in (ADJ_KINDS if thorough else ADJ_STAGE_KINDS):
+                        pl += [((lk, 2), (k, 1)), ((k, 1), (lk, 2))]
+        out += [(wrapper, p) for p in pl]
+    if n == 2 or thorough:
+        for wrapper in ("if-body", "else-body"):
+            out += [(wrapper, p) for p in singles(ADJ_IF_KINDS, n)]
+        out += [("loop-body", p) for p in singles(ADJ_BODY_KINDS, n) if _body_ok([k for k, _ in p])]
+    # a template made of literal sites only carries no data at all
+    return [(w, p) for w, p in out if any(k not in ADJ_LITERAL_KINDS for k, _ in p)]
+
+
+_BLOCK_TAG = re.compile(r"\{\{(#if\s+\w+|#each\s+\w+|#else|/if|/each)\}\}")
+
+
+def _pure_text(s):
+    """Plain template text: no construct, and no unmatched block tag either (a lone '{{#each xs}}' or '{{/if}}' in
+    the template text is not a documented construct: what it pairs with is not specified)."""
+    nodes = parse(s)
+    return (not nodes or (len(nodes) == 1 and nodes[0][0] == "t")) and not _BLOCK_TAG.search(s)
+
+
+def _merge_text(nodes):
+    out = []
+    for nd in nodes:
+        if nd[0] == "t" and out and out[-1][0] == "t":
+            out[-1] = ("t", out[-1][1] + nd[1])
+        else:
+            out.append(nd)
+    return out
+
+
+def adj_build(case, inert=False):
+    """-> (template text, bindings, number of literal sites) or None when the template would not be the intended
+    sequence of sites. inert: the same template / context with every fragment replaced by inert text.
+    Literal fragments must be unambiguous template text: a default literal cannot contain '}' and must not open a tag
+    that its own closing braces would complete ('{{zz|{{name}}' reads as a default literal or as text + a variable:
+    an ambiguity of the template syntax, already represented by the literal-payload family); literal text must be
+    plain text on its own (no unmatched block tag either); and the whole template must tokenise into exactly its sites."""
+    frs, wrapper = case["frags"], case["wrapper"]
+    if inert:
+        frs = tuple("N%d" % i for i in range(len(frs)))
+    pieces, binds, nlit, pos, item = [], {}, 0, 0, {}
+    for i, (kind, m) in enumerate(case["placement"]):
+        grp = frs[pos : pos + m]
+        pos += m
+        f = grp[0]
+        if kind == "template-text":
+            if not inert and not _pure_text(f):
+                return None
+            pieces.append(f)
+            nlit += 1
+        elif kind == "default-literal":
+            if not inert and ("}" in f or not _pure_text(f + "}}")):
+                return None
+            pieces.append("{{zz%d|%s}}" % (i, f))
+            nlit += 1
+        elif kind in _ADJ_BODY_PIECE:
+            pieces.append(_ADJ_BODY_PIECE[kind])
+            if kind.startswith("body-field"):
+                item[kind[-1]] = f
+            else:
+                item = f
+        else:
+            pieces.append(_ADJ_PIECE[kind] % i)
+            if kind in ADJ_LOOP_KINDS:
+                binds["l%d" % i] = [{"k": x} for x in grp] if kind == "dict-field" else list(grp)
+            else:
+                binds["p%d" % i] = f
+    assert pos == len(frs)
+    inner = "".join(pieces)
+    if wrapper == "if-body":
+        tstr = "{{#if t}}%s{{/if}}" % inner
+    elif wrapper == "else-body":
+        tstr = "{{#if f}}no{{#else}}%s{{/if}}" % inner
+    elif wrapper == "loop-body":
+        tstr = "{{#each one}}%s{{/each}}" % inner
+        binds["one"] = [item if item != {} else "x"]
+    else:
+        tstr = inner
+    if nlit and not inert:  # compositional tokenisation: the template is the sequence of its sites
+        want = _merge_text([nd for pc in pieces for nd in parse(pc)])
+        if wrapper == "if-body":
+            want = [("if", "t", want, None)]
+        elif wrapper == "else-body":
+            want = [("if", "f", [("t", "no")], want)]
+        elif wrapper == "loop-body":
+            want = [("each", "one", want)]
+        if parse(tstr) != want:
+            return None
+    return tstr, binds, nlit
+
+
+_ADJ_INERT: dict = {}
+
+
+def _adj_run(tstr, ctx, strict, how):
+    """-> (observation, accepted outputs) for one render of an adjacency template."""
+    if how == "included":
+        ra = ref_alts(ADJ_PARENT, ctx, "adj", {ADJ_CHILD: tstr})
+    else:
+        ra = ref_alts(tstr, ctx, "adj")
+    return observe(tstr, ctx, strict, "adj", how, count=True), ra[1]
+
+
+def _adj_inert(case, variant, strict, how):
+    """The same template with inert fragments (memoised: it does not depend on the split)."""
+    tstr, binds, _ = adj_build(case, inert=True)
+    key = (tstr, repr(binds), variant, strict, how)
+    got = _ADJ_INERT.get(key)
+    if got is None:
+        if len(_ADJ_INERT) > 50000:
+            _ADJ_INERT.clear()
+        n = RENDERS[:]
+        obs, alts = _adj_run(tstr, dict(P2_BASE if variant == "bound" else {}, **binds, **ADJ_FLAGS), strict, how)
+        RENDERS[:] = n  # baseline renders are not counted as compared renders
+        sound = obs[0] == "ok" and obs[1] in alts
+        got = _ADJ_INERT[key] = (sound, obs)
+    return got
+
+
+def adj_tstr(case):
+    b = adj_build(case)
+    return b[0] if b else ""
+
+
+def judge_adj(case):
+    """One adjacency template, names of the spelled construct bound and unbound, non-strict and strict."""
+    b = adj_build(case)
+    if b is None:
+        return "skip", [], None
+    tstr, binds, nlit = b
+    construct = case["construct"]
+    how = "included" if case["wrapper"] == "included" else "synthesize"
+    sites = "+".join(k for k, _ in case["placement"])
+    viol = []
+    oc = []
+    for variant in ("bound", "unbound"):  # the names the concatenation would refer to: bound / not bound
+        ctx = dict(P2_BASE if variant == "bound" else {}, **binds, **ADJ_FLAGS)
+        desc = "fragments %r of %r in adjacent sites %s (%s), template %r ctx %r: " % (
+            list(case["frags"]), "".join(case["frags"]), sites, case["wrapper"], tstr, ctx)
+        got, alts = _adj_run(tstr, ctx, False, how)
+        if got[0] == "raise" or got[1] not in alts:
+            obs = "raised %s: %s" % (got[1], got[2]) if got[0] == "raise" else "observed %r" % got[1]
+            if _adj_inert(case, variant, False, how)[0]:
+                viol.append(("reinterpreted:adjacent-fragments:%s" % construct, desc + "expected %r, %s (the same "
+                             "template with inert fragments renders as the reference does)" % (alts[0], obs)))
+            else:
+                viol.append(("output-mismatch:adjacent-sites:%s:%s" % (case["wrapper"], sites), desc + "expected %r, %s "
+                             "(also wrong with inert fragments)" % (alts[0], obs)))
+            oc.append((variant, got[0], "mismatch"))
+            continue
+        oc.append((variant, len(got[2]) > 0))
+        if nlit:
+            # the template text itself changes with the fragment: only names that occur nowhere in it are judged
+            for name in VALUE_ONLY_NAMES:
+                if name not in tstr and any(re.search(r"(?<!\w)%s(?!\w)" % name, w) for w in got[2]):
+                    viol.append(("spurious-warning:adjacent-fragments:%s" % construct, desc + "%r occurs in no template "
+                                 "text, only in the concatenation of emitted fragments, yet the warnings name it: %r"
+                                 % (name, got[2])))
+                    break
+            continue
+        sound, base = _adj_inert(case, variant, False, how)
+        if sound and sorted(got[2]) != sorted(base[2]):
+            viol.append(("spurious-warning:adjacent-fragments:%s" % construct, desc + "warnings %r, but the same template "
+                         "with inert fragments gives %r" % (got[2], base[2])))
+        if variant == "unbound":
+            sgot, salts = _adj_run(tstr, ctx, True, how)
+            sbase = _adj_inert(case, variant, True, how)[1]
+            if sgot[0] == "raise":
+                if sbase[0] != "raise":
+                    viol.append(("strict-raises-bound:name-from-value:adjacent-fragments:%s" % construct, desc + "strict mode "
+                                 "raised %s: %s, but not for the same template with inert fragments" % (sgot[1], sgot[2])))
+            elif sbase[0] == "ok" and sgot[1] not in salts:
+                viol.append(("strict-output-differs:adjacent-fragments:%s" % construct, desc + "strict output %r, expected "
+                             "%r" % (sgot[1], salts[0])))
+            oc.append(("strict", sgot[0]))
+    return "ok", viol, ("adj", case["wrapper"], nlit > 0, tuple(oc), True)
+
+
+def adj_cases(item, cfg):
+    cname, frs = item
+    for wrapper, placement in adj_placements(len(frs), cfg["glevel"]):
+        yield {"phase": "adj", "construct": cname, "frags": frs, "wrapper": wrapper, "placement": placement}
+
+
 # ----------------------------------------------------------------------------------------------
 # enumeration
 # ----------------------------------------------------------------------------------------------
@@ -893,12 +1158,12 @@ TIERS = {
     # plan = [(kind level, number of segments)], w_values for phase 1
     "quick": dict(plan=[("full", 0), ("full", 1), ("std", 2), ("core", 3)], dplan=[("std", 1), ("core", 2), ("core", 3)],
                   splan=[("shadow", 1), ("shadow", 2)], aplan=[("full", 1), ("std", 2)],
-                  xplan=[("core", 1), ("core", 2)],
+                  xplan=[("core", 1), ("core", 2)], glevel="quick",
                   w_values=(MISSING, "w")),
     "thorough": dict(plan=[("full", 0), ("full", 1), ("full", 2), ("std", 3), ("core", 4)],
                      dplan=[("full", 1), ("std", 2), ("std", 3), ("core", 4)],
                      splan=[("shadow", 1), ("shadow", 2), ("shadow", 3)], aplan=[("full", 1), ("std", 2), ("core", 3)],
-                     xplan=[("core", 1), ("std", 2), ("core", 3)],
+                     xplan=[("core", 1), ("std", 2), ("core", 3)], glevel="thorough",
                      w_values=W_VALUES),
 }
 _REFS_W: dict = {}
@@ -1027,10 +1292,13 @@ def iso_cases(item):
 
 
 FAMILIES = {"x": lambda it, cfg: iso_cases(it), "t": cases_for, "d": lambda it, cfg: literal_cases(it), "s": lambda it, cfg: shadow_cases(it),
-            "a": lambda it, cfg: api_cases(it)}
+            "a": lambda it, cfg: api_cases(it), "g": adj_cases}
 
 
 def _case_order(case):
+    if case["phase"] == "adj":
+        t = adj_tstr(case)
+        return (len(t), t, "adj", len(repr(case["frags"])), repr((case["frags"], case["placement"])), False)
     t = emit(case["tpl"])
     return (len(t), t, str(case["phase"]), len(repr(case["ctx"])), repr(case["ctx"]), bool(case.get("strict")))
 
@@ -1049,7 +1317,7 @@ def _work(arg):
                 st["phase2_slot_w_not_referenced_skipped"] += 4
                 continue
             status, vs, oc = judge(case)
-            ph = "phase%s" % case["phase"] if case["phase"] not in ("strict", "api", "iso") else case["phase"]
+            ph = "phase%s" % case["phase"] if case["phase"] not in ("strict", "api", "iso", "adj") else case["phase"]
             if status == "skip":
                 st[ph + "_unspecified_skipped"] += 1
                 continue
@@ -1060,7 +1328,7 @@ def _work(arg):
                 outcomes.add(oc)
                 if oc[-1] is True or oc[0] == "strict" or (oc[0] in ("api", "iso") and any(x[2] or x[1] == "raise" for x in oc[2])):
                     st["nontrivial_cases"] += 1
-            if len(case["tpl"]) <= 1 and case["phase"] == 1:
+            if case["phase"] == 1 and len(case["tpl"]) <= 1:
                 outcomes.add(("out", observe(emit(case["tpl"]), case["ctx"])[1]))
             for k, w in vs:
                 cur = viols.get(k)
@@ -1070,7 +1338,7 @@ def _work(arg):
                     cur[0] += 1
                     if _case_order(case) < _case_order(cur[2]):
                         cur[1], cur[2] = w, case
-            if not vs and len(samples) < 2 and len(case["tpl"]) >= 2:
+            if not vs and len(samples) < 2 and case["phase"] != "adj" and len(case["tpl"]) >= 2:
                 samples.append({"template": emit(case["tpl"]), "ctx": case["ctx"], "phase": case["phase"]})
     st["impl_renders"] = RENDERS[0]
     st["impl_translate_calls"] = RENDERS[1]
@@ -1085,8 +1353,9 @@ def run(ctx):
     stpls = common.rotate(templates(cfg["splan"]), ctx.seed)
     atpls = common.rotate(templates(cfg["aplan"]), ctx.seed)
     xtpls = common.rotate(iso_templates(cfg["xplan"]), ctx.seed)
+    gitems = common.rotate([(c, frs) for c, p in ADJ_CONSTRUCTS for m in (2, 3) for frs in splits(p, m)], ctx.seed)
     n = common.NPROC * 6
-    jobs = [(fam, ch, cfg) for fam, seq in (("t", tpls), ("d", dtpls), ("s", stpls), ("a", atpls), ("x", xtpls))
+    jobs = [(fam, ch, cfg) for fam, seq in (("t", tpls), ("d", dtpls), ("s", stpls), ("a", atpls), ("x", xtpls), ("g", gitems))
             for ch in common.chunked(seq, n)]
     st = Counter()
     viols = {}
@@ -1122,6 +1391,10 @@ def run(ctx):
         shadow_templates=len(stpls),
         api_templates=len(atpls),
         isolation_templates=len(xtpls),
+        adjacency_fragment_tuples=len(gitems),
+        adjacency_constructs=[p for _, p in ADJ_CONSTRUCTS],
+        adjacency_site_kinds=list(ADJ_KINDS),
+        adjacency_placements={"%d-fragments" % m: len(adj_placements(m, cfg["glevel"])) for m in (2, 3)},
         plan=[list(p) for p in cfg["plan"]],
         literal_plan=[list(p) for p in cfg["dplan"]],
         shadow_plan=[list(p) for p in cfg["splan"]],
@@ -1146,7 +1419,14 @@ def run(ctx):
         "at every position among n-1 ordinary segments x context x strict flag on three instances (default constructor, "
         "no templates, own filters and templates), each built between siblings constructed before and after it and "
         "rendered right after two siblings rendered the same template, judged against the reference parametrised by the "
-        "judged instance's OWN registry and filters. states = distinct (template, context, mode) cases "
+        "judged instance's OWN registry and filters; adjacency plan: every split of every construct string into 2 and 3 "
+        "non-empty fragments x every placement of the fragments, in order, into adjacent emission sites (2 fragments: "
+        "every ordered pair of the 11 site kinds and 2 consecutive items of each loop kind, at top level and inside an "
+        "included child, pairs of the kinds a block body may contain inside if / else / loop bodies; 3 fragments: 3 "
+        "consecutive loop items, triples over one kind per early/middle/late rendering stage, a 2-item loop next to one "
+        "site per rendering stage [thorough: triples over all kinds, also in block bodies]) x the spelled names bound / "
+        "unbound, non-strict (+ strict when no fragment is template text); placements whose literal fragments are not "
+        "unambiguous plain template text are not generated (counted as unspecified). states = distinct (template, context, mode) cases "
         "rendered by the real Ribosome and compared with the reference (an api / isolation case = all its paths); "
         "traces_validated_against_impl = compared renders; transitions = "
         "translate() executions of the real Ribosome caused by the compared renders (top level + include expansions, read "
@@ -1167,11 +1447,18 @@ def run(ctx):
         "raise or return non-strings, and re-defining a built-in filter name ON the judged instance, are not judged",
         "translate(<name only a sibling instance registered>) raising is not part of the statement: not judged; assigning "
         "into the public attributes .filters / .templates directly is not a documented extension point: not explored",
+        "adjacency family: a fragment written as a default literal may not contain '}' nor open a tag that the default's "
+        "own closing braces would complete, a fragment written as literal text must be plain text on its own without any "
+        "unmatched block tag ({{#each xs}} with no {{/each}} is not a documented construct), and the "
+        "template must tokenise into exactly its sites; otherwise the text is a different (or ambiguous) template",
     ]
 
 
 def replay(ctx, case):
     case = dict(case)
+    if case["phase"] == "adj":
+        case["frags"], case["placement"] = _tuplify(case["frags"]), _tuplify(case["placement"])
+        return judge(case)[1]
     case["tpl"] = _tuplify(case["tpl"])
     case["ctx"] = _listify(case["ctx"])
     if case.get("meta"):
